@@ -44,6 +44,8 @@ type Ctx struct {
 	funcs    map[string]bool
 	sites    int
 	Notes    []string
+	// Filter, when set, restricts a shared rule to the instances whose function name passes.
+	Filter func(fn string) bool
 }
 
 func (c *Ctx) touchFn(name string) {
@@ -57,6 +59,9 @@ func (c *Ctx) touchFn(name string) {
 
 // OK records a discharged instance.
 func (c *Ctx) OK(fn, pos, what string) {
+	if c.Filter != nil && !c.Filter(fn) {
+		return
+	}
 	c.rule.Instances++
 	c.rule.Discharged++
 	c.sites++
@@ -67,6 +72,9 @@ func (c *Ctx) OK(fn, pos, what string) {
 }
 
 func (c *Ctx) Violation(fn, pos, construct, msg string) {
+	if c.Filter != nil && !c.Filter(fn) {
+		return
+	}
 	c.rule.Instances++
 	c.rule.Violated++
 	c.sites++
@@ -75,6 +83,9 @@ func (c *Ctx) Violation(fn, pos, construct, msg string) {
 }
 
 func (c *Ctx) Undecided(fn, pos, construct, msg string) {
+	if c.Filter != nil && !c.Filter(fn) && fn != "" {
+		return
+	}
 	c.rule.Instances++
 	c.rule.Undecided++
 	c.sites++
